@@ -1,4 +1,8 @@
-from contracts import store, fresh
+from contracts import store, fresh, stem
 
 def build(tier):
-    return dict(targets=store.targets(tier) + fresh.find_targets(), assumptions=[], trusted_base=[])
+    return dict(targets=store.targets(tier) + fresh.find_targets() + stem.targets(tier), assumptions=[
+        "sqlite3: a connection in the default isolation mode keeps INSERT/DELETE pending until commit() (contract of sqlite3.connect)",
+        "os.replace is atomic; a kill cannot tear a single os.replace or a single sqlite statement",
+        "the i64 annotations of util.hash_path_stem are ignored: the interpreted (unbounded int) semantics is what /venv runs and what is verified"],
+        trusted_base=[])
